@@ -6,6 +6,7 @@ re-opened and its chunk table printed) on contents x configurations x segmentati
 Oracles on the implementation alone: byte-identical file for every segmentation and on repeated
 runs; prefix locality and suffix resynchronisation on edited inputs; size bounds."""
 import hashlib, os, random, re, concurrent.futures as cf
+import re
 import vlib
 
 THEOREMS = ["C16_batching_invisible", "C16_segmentation_auto", "C16_write_split", "C16_segmentation_manual",
@@ -54,10 +55,53 @@ WORDS = [b"chunk", b"zchunk", b"delta", b"the", b"of", b"and", b"rolling", b"has
          b"<text:p>", b"</text:p>", b"metadata", b"repository", b"package", b"0123456789", b"\n", b"\n\n", b" ", b"  "]
 
 
+_BUZ = None
+
+
+def buz_table():
+    global _BUZ
+    if _BUZ is None:
+        txt = open(os.path.join(vlib.COQ, "Gen", "GenBuzTable.v")).read()
+        body = txt[txt.index("["):txt.index("]")]
+        _BUZ = [int(x) for x in re.findall(r"\d+", body)]
+        assert len(_BUZ) == 256
+    return _BUZ
+
+
+def _rol(v, k):
+    k %= 32
+    return ((v << k) | (v >> (32 - k))) & 0xffffffff if k else v
+
+
+def trigger_window(r, width=48, mask=0x7fff):
+    """a byte window whose buzhash has the low mask bits zero (a content-defined boundary)"""
+    T = buz_table()
+    while True:
+        pre = r.randbytes(width - 1)
+        h = 0
+        for j, b in enumerate(pre):
+            h ^= _rol(T[b], width - 1 - j)
+        for last in range(256):
+            if (h ^ T[last]) & mask == 0:
+                return pre + bytes([last])
+
+
 def base_content(kind, size, cseed):
     r = random.Random(cseed)
     if size == 0:
         return b""
+    if kind == "planted":
+        # random bytes with boundaries planted just behind the automatic minimum of a chunk:
+        # chunk k is cut at 8192 + d bytes for small d (the rolling window is barely primed there)
+        out = bytearray(r.randbytes(size))
+        start = 0
+        for d in (0, 1, 20, 45, 46, 47, 48, 100):
+            L = start + 8192 + d + (cseed % 3)
+            if L + 1 > size:
+                break
+            out[L - 47:L + 1] = trigger_window(r)
+            start = L
+        return bytes(out)
     if kind == "random":
         return r.randbytes(size)
     if kind == "repeat":                      # one byte: every hash-triggered boundary repeats itself
@@ -216,6 +260,9 @@ def corr_contents(tier, rng):
         out.append({"kind": KINDS[i % len(KINDS)], "size": s, "cseed": vlib.seed() * 100000 + i})
     # the refusal loop wants long runs of one byte inside the first 8 KiB of a chunk and beyond
     out[5]["kind"] = "repeat"
+    # boundaries planted right behind the automatic minimum
+    for j, s in enumerate((9000, 40000, 80000)):
+        out.append({"kind": "planted", "size": s, "cseed": vlib.seed() * 100000 + 900 + j})
     return out
 
 
